@@ -333,7 +333,8 @@ class NodeSuite(Suite):
         # late joiner mode: the peers already form a working cluster with an established Master among them
         established = min(peers) if rng.random() < 0.3 else 0
         if established:
-            st0 = rng.choice(['OPERATION', 'CONCILIATION', 'DISTRIBUTION', 'OPERATION'])
+            st0 = rng.choice(['OPERATION', 'CONCILIATION', 'DISTRIBUTION', 'OPERATION', 'OPERATION', 'SHUTTING_DOWN',
+                              'RESTARTING', 'ELECTION'])
             for j in peers:
                 pstate[j] = st0
 
@@ -362,7 +363,11 @@ class NodeSuite(Suite):
             if established and m == established:
                 # the working cluster goes on: its Master wanders between OPERATION and CONCILIATION
                 if j == m and rng.random() < 0.3:
-                    pstate[j] = rng.choice(['OPERATION', 'CONCILIATION'])
+                    pstate[j] = {'ELECTION': rng.choice(['DISTRIBUTION', 'SHUTTING_DOWN', 'ELECTION']),
+                                 'RESTARTING': rng.choice(['RESTARTING', 'FINAL']),
+                                 'SHUTTING_DOWN': rng.choice(['SHUTTING_DOWN', 'FINAL']),
+                                 'FINAL': 'FINAL'}.get(pstate[j], rng.choice(['OPERATION', 'CONCILIATION', 'OPERATION',
+                                                                              'SHUTTING_DOWN']))
                 elif j != m:
                     pstate[j] = pstate[m]
             elif j == m:
